@@ -41,7 +41,7 @@ COMPONENTS = {"real": ["setigen.voltage.backend (from_data, _read_next_block, co
 ASSUMPTIONS = ["from_data builds its own requantiser (ComplexQuantizer defaults: refresh every call, 10000 samples)",
                "a sub-block whose inner (synthetic) quantisation sits within 1e-7 of a rounding boundary is not value-judged",
                "NPOL=4 in an input header denotes two polarisations (GUPPI convention)"]
-PROBES = ["stream_silent_for_whole_subblocks", "input_path_held_another_recording_of_same_size", "input_by_refguppi", "input_by_setigen", "four_bit", "input_unpadded", "input_aligned_header", "multi_file_input",
+PROBES = ["num_subblocks_reassigned_between_recordings", "stream_silent_for_whole_subblocks", "input_path_held_another_recording_of_same_size", "input_by_refguppi", "input_by_setigen", "four_bit", "input_unpadded", "input_aligned_header", "multi_file_input",
           "last_file_partial", "length_longer_than_input", "length_shorter_than_input", "length_unspecified",
           "digitize_on", "unseeded_estimate_framing_only", "retry_after_fault", "array_source", "listing_permuted",
           "second_injection_same_backend", "per_stream_digitiser_targets"]
@@ -79,7 +79,7 @@ def generate(rng, tier):
     if source == "ref" and rng.random() < 0.25:
         inp["stale"] = rng.choice(["bits", "bits", "chans", "pkt"])
     ops = []
-    for _ in range(rng.choice([1, 1, 2])):
+    for _ in range(rng.choice([1, 1, 2, 2])):
         r = rng.random()
         if r < 0.3:
             length = {"mode": "none"}
@@ -88,6 +88,8 @@ def generate(rng, tier):
         else:
             length = {"mode": "obs_length", "k": rng.choice([1, n_in, n_in + 2]), "half": rng.random() < 0.5}
         op = {"op": "inject", "length": length, "digitize": rng.random() < 0.6}
+        if ops and rng.random() < 0.4:
+            op["set_subblocks"] = rng.randint(1, be["W"] + 2)
         if rng.random() < 0.12:
             op["fault"] = rng.choice([{"kind": "enospc", "at": rng.randint(1, 60)}, {"kind": "source", "at": rng.randint(1, 4)},
                                       {"kind": "open", "at": rng.randint(1, 3)}])
@@ -371,6 +373,10 @@ def execute(sc, ctx):
     tpb = Fraction(be["spb"] * el["B"]) / Fraction(ant["fs"])
     ninj = 0
     for j, op in enumerate(sc["ops"]):
+        if op.get("set_subblocks") and j > 0:
+            # the memory knob re-assigned on a backend that has already recorded
+            backend.num_subblocks = op["set_subblocks"]
+            ctx.hit("num_subblocks_reassigned_between_recordings")
         ctx.op("inject" + ("+fault" if op.get("fault") else "") + "/" + op["length"]["mode"])
         L = op["length"]
         rec = {"digitize": op["digitize"], "template": False}
